@@ -90,6 +90,48 @@ def forge_variants(cfg, s, obs, tx, session_key, rng, real_p):
     return out
 
 
+def forge_cross_type_acks(cfg, s, tx, real_p, neg):
+    """acknowledgements of the WRONG type for a reliable packet: SYN and CONNECT acknowledgements can be signed with the access key
+    alone; carrying the sequence id of an unacknowledged DATA / PING / DISCONNECT packet they must acknowledge nothing"""
+    from nintendo.nex import prudp
+    enc = prudp.PRUDPMessageSelector(s).select(cfg.version)
+    out = []
+    for atype in (0, 1):
+        a = prudp.PRUDPPacket(atype, 1 | (8 if atype == 1 else 0))
+        a.version = real_p.version
+        a.source_type, a.source_port, a.dest_type, a.dest_port = real_p.dest_type, real_p.dest_port, real_p.source_type, real_p.source_port
+        a.packet_id, a.fragment_id, a.substream_id = real_p.packet_id, 0, real_p.substream_id
+        a.session_id = 0x5A
+        a.connection_signature = bytes(enc.signature_size())
+        a.max_substream_id, a.minor_version, a.supported_functions = neg
+        a.initial_unreliable_id = 1
+        a.payload = b""
+        try:
+            a.signature = enc.calc_packet_signature(a, b"", b"" if atype == 0 else enc.calc_connection_signature(tx.dst))
+            out.append(("cross-type-ack", atype, enc.encode(a)))
+        except Exception:
+            pass
+    return out
+
+
+def forge_unknown_peer_connects(cfg, s, real_connect):
+    """a CONNECT from an address that never sent a SYN, signed with a cookie the server never handed out (none, zeros, another address's)"""
+    from nintendo.nex import prudp
+    import copy
+    enc = prudp.PRUDPMessageSelector(s).select(cfg.version)
+    out = []
+    for name, cookie in (("none", b""), ("zeros", bytes(enc.signature_size())), ("other-address", enc.calc_connection_signature(("10.9.9.9", 1234)))):
+        q = copy.copy(real_connect)
+        q.payload = b""
+        q.session_id = 0x33
+        try:
+            q.signature = enc.calc_packet_signature(q, b"", cookie)
+            out.append((name, enc.encode(q)))
+        except Exception:
+            pass
+    return out
+
+
 def forge_acks(cfg, s, tx, session_key, real_p):
     """acknowledgements of `real_p` as its receiver would send them, but produced without one of the keys"""
     from nintendo.nex import prudp
@@ -271,6 +313,14 @@ def make_setup(cfg, mode, plan_filter, seed, allow=None):
                 d = bytearray(data); d[b1 >> 3] ^= 1 << (b1 & 7); d[b2 >> 3] ^= 1 << (b2 & 7)
                 inj(tx.src, tx.dst, bytes(d), D + rng.choice([-EPS, EPS]), ("flip2", tx.n, b1, b2))
             pk = obs.decode(data)
+            if pk and pk[0].type == 1 and not pk[0].flags & 1 and tx.dst == ps.SERVER and not getattr(out, "_neg", None):
+                out._neg = (pk[0].max_substream_id, pk[0].minor_version, pk[0].supported_functions)
+                if not cfg.credentials:
+                    for name, fdata in forge_unknown_peer_connects(cfg, s, pk[0]):
+                        inj(("10.0.0.77", 40077), tx.dst, fdata, 3 * D, ("forged", "unknown-peer-connect", 1, pk[0].flags, tx.n))
+            if pk and not pk[0].flags & 1 and pk[0].flags & 2 and pk[0].type in (2, 3, 4) and getattr(out, "_neg", None) and rng.random() < 0.7:
+                for kind, atype, fdata in forge_cross_type_acks(cfg, s, tx, pk[0], out._neg):
+                    inj(tx.dst, tx.src, fdata, rng.choice([EPS, 2 * D - EPS]), ("forged", kind, atype, 1, tx.n))
             if pk and not pk[0].flags & 1 and (pk[0].flags & 2 or pk[0].type == 0):
                 # forged acknowledgements of this very packet, sent back to its sender ahead of any genuine ack
                 for kind, fdata in forge_acks(cfg, s, tx, out.session_key, pk[0]):
@@ -356,6 +406,8 @@ def strict(cfg, desc):
     control state (v0 signs data only) but must never make a payload appear"""
     if is_d18(desc):
         return False
+    if desc[0] == "forged" and desc[1] == "unknown-peer-connect":
+        return True          # "in every encoding a handshake packet with a wrong signature establishes nothing"
     if cfg.version != 0:
         return True
     if desc[0] == "forged" and desc[1] == "session-key" and cfg.v0[0] == 0 and desc[2] in (2, 3) and not desc[3] & 1:
@@ -487,7 +539,7 @@ def run(ctx):
     quick = ctx.tier == "quick"
     ctx.rule = ("twin runs (reference / attacked) of real sessions; attacked = every single-bit flip of every genuine datagram "
                 "(exhaustive sessions) or 24 sampled bits per datagram, 6 double flips per datagram, and forged packets of 12 type/flag "
-                "combinations x {wrong access key, wrong session key, wrong connection signature, wrong session id, spoofed port}, CONNECT acknowledgements with a valid packet signature but a connection response made without the session key, the client's own CONNECT re-sent after the handshake "
+                "combinations x {wrong access key, wrong session key, wrong connection signature, wrong session id, spoofed port}, CONNECT acknowledgements with a valid packet signature but a connection response made without the session key, SYN / CONNECT acknowledgements carrying the sequence id of an unacknowledged DATA / PING / DISCONNECT packet, CONNECTs from an address that never sent a SYN signed with a cookie never handed out, the client's own CONNECT re-sent after the handshake "
                 "with another session id / connection-signature option (must be handled like a retransmission), idle connections (several keep-alive periods) with a trickle of invalid datagrams, "
                 "injected just before/after the genuine datagram; v1 with/without credentials, v0 variants; every attacked v1/v0 run "
                 "is replayed through the Lean L1 model; distinct non-trivial = injected datagrams")
@@ -500,6 +552,7 @@ def run(ctx):
     for v0 in v0s:
         for creds in ((True,) if quick else (True, False)):
             jobs.append((n, dict(base, version=0, v0=v0, credentials=creds), ctx.rng.getrandbits(32), "flip1-all" if not quick else "flip1-sample")); n += 1
+    jobs.append((n, dict(base, version=0, v0=(0, 1, 1), credentials=False), ctx.rng.getrandbits(32), "flip1-sample")); n += 1     # (a keyless v0 server: unknown-peer CONNECTs)
     jobs.append((n, dict(base, version=0, v0=(1, 0, 0), credentials=True), 1, "known-d16")); n += 1
     jobs.append((n, dict(base, version=0, v0=(0, 1, 1), credentials=True), 2, "known-d17")); n += 1
     for sd in range(3, 9):
